@@ -231,7 +231,41 @@ def w_null_group():
                               "windowed extend partitioned by a key with nulls")
 
 
+def _records_case(kind):
+    import pandas
+    import data_algebra.cdata as cdata
+
+    ct = pandas.DataFrame({"measure": ["k1", "k2"], "value": ["c1", "c2"]})
+    if kind == "blocks-in-no-record-keys":
+        spec = cdata.RecordSpecification(ct, record_keys=[], control_table_keys=["measure"])
+        d = pandas.DataFrame({"measure": ["k1", "k2"], "value": [1.5, 2.5]})
+        return (lambda: _td("d", ["measure", "value"]).convert_records(spec.map_to_rows())), {"d": d}
+    spec = cdata.RecordSpecification(ct, record_keys=["id"], control_table_keys=["measure"])
+    d = pandas.DataFrame({"id": [1, 2], "c1": [1.5, 2.5], "c2": [10.0, 20.0]})
+    if kind == "select":
+        return (lambda: _td("d", ["id", "c1", "c2"]).convert_records(spec.map_from_rows()).select_columns(["id", "measure"])), {"d": d}
+    return (lambda: _td("d", ["id", "c1", "c2"]).convert_records(spec.map_from_rows()).drop_columns(["value"])), {"d": d}
+
+
+def w_records_select():
+    f, data = _records_case("select")
+    return _diff_witness(f, data, "select_columns directly over convert_records")
+
+
+def w_records_drop():
+    f, data = _records_case("drop")
+    return _diff_witness(f, data, "drop_columns directly over convert_records")
+
+
+def w_records_nokeys():
+    f, data = _records_case("blocks-in-no-record-keys")
+    return _diff_witness(f, data, "blocks-to-rows convert_records without record keys")
+
+
 WITNESSES = {
+    "sql-convert_records-select_columns-returns-all-columns": w_records_select,
+    "sql-convert_records-drop_columns-raises": w_records_drop,
+    "sql-convert_records-without-record-keys-empty-group-by": w_records_nokeys,
     "sql-source-needs-no-columns": w_zero_need,
     "pandas-cross-join-empty-side": w_cross_empty,
     "sql-ungrouped-project-all-outputs-pruned": w_project_pruned,
